@@ -503,3 +503,254 @@ def search_C14(tier, rng):
 def replay_C14(prop, f):
     viol, _ = check_c14(f['special_text'], [(k, a) for k, a in f['history']])
     return bool(viol)
+
+
+# ------------------------------------------------------------------ C18 sources / readers / S3 listing (fake boto handles)
+import os
+import tempfile
+import mosromgr.utils.s3 as s3mod
+from mosromgr.moscollection import MosCollection, MosReader
+
+
+class FakeBody:
+    def __init__(self, data): self.data = data
+    def read(self): return self.data
+
+
+class FakeS3:
+    """stands in for the lazily created boto3 handles of mosromgr.utils.s3.S3"""
+
+    def __init__(self, objects, page_size):
+        self.objects = objects          # ordered dict key -> bytes
+        self.page_size = page_size
+        fake = self
+
+        class Resource:
+            def Object(self, bucket, key):
+                class O:
+                    def get(self_inner):
+                        return {'Body': FakeBody(fake.objects[key])}
+                return O()
+
+        class Paginator:
+            def paginate(self, Bucket, Prefix):
+                keys = [k for k in fake.objects if k.startswith(Prefix)]
+                if not keys:
+                    yield {'ResponseMetadata': {}}
+                    return
+                for i in range(0, len(keys), fake.page_size):
+                    yield {'Contents': [{'Key': k, 'Size': 1} for k in keys[i:i + fake.page_size]]}
+
+        class Client:
+            def get_paginator(self, name):
+                assert name == 'list_objects'
+                return Paginator()
+        self.resource, self.client = Resource(), Client()
+
+
+def search_C18(tier, rng):
+    from scenarios import ro_xml
+    n = 0
+    failures = []
+
+    def fail(what, sha):
+        if len(failures) < 10:
+            failures.append({'property': 'C18', 'fn': 'mosromgr.mostypes.MosFile.from_string', 'what': what, 'input_sha': _sha(sha), 'api': 'see what'})
+    docs = [ro_xml(['A', 'B'], items={'A': ['1']}).replace('the slug', 'Ünï ☃ &amp; 𝄞')]
+    for kind, a in (('StoryAppend', dict(new=['N'])), ('StoryMove', dict(src='A', target='B')), ('EAItemSwap', dict(story='A', ids=['1', '2'])),
+                    ('ItemInsert', dict(story='A', target=None, new=['n'])), ('MetaDataReplace', dict(body='<roSlug>é</roSlug>')),
+                    ('RunningOrderEnd', {}), ('ReadyToAir', {}), ('StorySend', dict(target='A'))):
+        docs.append(msg(kind, **a)[0])
+    saved = s3mod.s3
+    tmp = tempfile.mkdtemp(prefix='c18', dir='/var/tmp')
+    try:
+        objects = {}
+        paths = []
+        for i, d in enumerate(docs):
+            pth = os.path.join(tmp, 'm%02d.mos.xml' % i)
+            with open(pth, 'w', encoding='utf-8') as f:
+                f.write(d)
+            paths.append(pth)
+            objects['pre/m%02d.mos.xml' % i] = d.encode('utf-8')
+        objects['pre/readme.txt'] = b'not a mos file'
+        objects['other/x.mos.xml'] = docs[1].encode('utf-8')
+        s3mod.s3 = FakeS3(objects, 2)
+        for i, d in enumerate(docs):
+            n += 1
+            objs = [MosFile.from_string(d), MosFile.from_string(d.encode('utf-8')), MosFile.from_file(paths[i]),
+                    MosFile.from_s3('bk', 'pre/m%02d.mos.xml' % i)]
+            if len({type(o).__name__ for o in objs}) != 1 or len({str(o) for o in objs}) != 1:
+                fail('the same document gives different classes / serialisations from str, bytes, file and S3: %s' % [type(o).__name__ for o in objs], d)
+            for rd in (MosReader.from_string(d), MosReader.from_file(paths[i]), MosReader.from_s3('bk', 'pre/m%02d.mos.xml' % i)):
+                n += 1
+                a, b = rd.mos_object, rd.mos_object
+                if not (rd.message_id == objs[0].message_id and rd.ro_id == objs[0].ro_id and rd.mos_type is type(objs[0])
+                        and type(a) is type(objs[0]) and str(a) == str(objs[0]) and a is not b and str(b) == str(a)):
+                    fail('reader metadata / restored object disagree with the message (%s)' % type(objs[0]).__name__, d)
+        # collections from the three constructors
+        with warnings.catch_warnings():
+            warnings.simplefilter('ignore')
+            res = []
+            for mk in (lambda: MosCollection.from_strings(docs, allow_incomplete=False), lambda: MosCollection.from_files(paths),
+                       lambda: MosCollection.from_s3(bucket_name='bk', prefix='pre/')):
+                mc = mk()
+                mc.merge(strict=False)
+                res.append(str(mc))
+                n += 1
+            if len(set(res)) != 1:
+                fail('collections built from strings, files and S3 keys over the same contents merge to different results', 'collections')
+        # listing: every key with the suffix under the prefix, across pages
+        for page_size in (1, 2, 3, 50):
+            for nkeys in (0, 1, 2, 5, 7):
+                for prefix in ('p/', '', None):
+                    objs2 = {}
+                    for i in range(nkeys):
+                        objs2['p/k%d%s' % (i, '.mos.xml' if i % 3 != 2 else '.txt')] = b'x'
+                        objs2['q/z%d.mos.xml' % i] = b'x'
+                    s3mod.s3 = FakeS3(objs2, page_size)
+                    n += 1
+                    got = s3mod.get_mos_files('bk', prefix) if prefix is not None else s3mod.get_mos_files('bk')
+                    exp = [k for k in objs2 if k.startswith(prefix or '') and k.endswith('.mos.xml')]
+                    if got != exp:
+                        fail('get_mos_files(prefix=%r) over %d keys in pages of %d returned %s, expected %s' % (prefix, len(objs2), page_size, got, exp),
+                             'list %s %s %s' % (page_size, nkeys, prefix))
+    finally:
+        s3mod.s3 = saved
+        import shutil
+        shutil.rmtree(tmp)
+    return {'evaluations': n, 'distinct': n, 'failures': failures,
+            'rule': '9 documents (Unicode content) via str, bytes, file and a fake S3 object; readers from the three constructors; collections from the three '
+                    'constructors; bucket listings of 0..14 keys in pages of 1, 2, 3, 50 with and without suffix, prefixes p/, empty and omitted',
+            'summary': {'short': '%d source / reader / listing comparisons, %d failing' % (n, len(failures)), 'bounded': True},
+            'assumptions': ['S3 is a fake paginator / object store installed in place of the lazy boto3 handles']}
+
+
+def replay_C18(prop, f):
+    r = search_C18('thorough', None)
+    return any(x['input_sha'] == f['input_sha'] for x in r['failures'])
+
+
+# ------------------------------------------------------------------ C19 command line
+import io as _io
+import contextlib as _ctx
+import itertools as _it
+
+
+def run_cli(argv):
+    from mosromgr.cli import main
+    out, err = _io.StringIO(), _io.StringIO()
+    code = None
+    with _ctx.redirect_stdout(out), _ctx.redirect_stderr(err):
+        try:
+            code = main(argv)
+        except SystemExit as e:
+            code = 'exit:%s' % e.code
+        except BaseException as e:
+            code = 'raised:%s' % type(e).__name__
+    return code, out.getvalue(), err.getvalue()
+
+
+def search_C19(tier, rng):
+    from scenarios import ro_xml
+    n = 0
+    failures = []
+
+    def fail(what, argv):
+        if len(failures) < 10:
+            failures.append({'property': 'C19', 'fn': 'mosromgr.cli.CLI', 'argv': argv, 'what': '%s (argv %s)' % (what, argv),
+                             'input_sha': _sha(json.dumps(argv)), 'api': 'mosromgr.cli.main(argv)'})
+    tmp = tempfile.mkdtemp(prefix='c19', dir='/var/tmp')
+    try:
+        files = {}
+        docs = {'ro': ro_xml(['A', 'B', 'C'], items={'A': ['1', '2']}, mid=1),
+                'append': msg('StoryAppend', mid=2, new=['N'])[0], 'move': msg('EAStoryMove', mid=3, target='A', ids=['C'])[0],
+                'bad': msg('StoryReplace', mid=4, target='ZZ', new=['Q'])[0], 'roreplace': msg('RunningOrderReplace', mid=5, new=['A', 'B'])[0].replace('><', '>\n <'),
+                'end': msg('RunningOrderEnd', mid=9)[0], 'send': msg('StorySend', mid=6, target='A')[0], 'swap': msg('EAItemSwap', mid=7, story='A', ids=['1', '2'])[0]}
+        for k, d in docs.items():
+            files[k] = os.path.join(tmp, k + '.mos.xml')
+            open(files[k], 'w').write(d)
+        files['notxml'] = os.path.join(tmp, 'notxml.mos.xml')
+        open(files['notxml'], 'w').write('this is not xml')
+        files['unknown'] = os.path.join(tmp, 'unknown.xml')
+        open(files['unknown'], 'w').write('<html><body/></html>')
+        files['missing'] = os.path.join(tmp, 'does-not-exist.xml')
+        files['dir'] = tmp
+        completed = os.path.join(tmp, 'completed.xml')
+        ro = RunningOrder.from_string(docs['ro'])
+        ro += MosFile.from_string(docs['end'])
+        open(completed, 'w').write(str(ro))
+        files['completed'] = completed
+        names = list(files)
+        # detect / inspect: every single file, pairs and triples with a bad one in every position
+        lists = [[k] for k in names] + [list(p) for p in _it.permutations(['ro', 'missing', 'append'], 3)] + \
+                [['notxml', 'move', 'dir', 'swap'], ['unknown', 'completed', 'send'], names]
+        for cmd in ('detect', 'inspect'):
+            for lst in lists:
+                argv = [cmd, '-f'] + [files[k] for k in lst]
+                n += 1
+                code, out, err = run_cli(argv)
+                exp_lines = []
+                for k in lst:
+                    try:
+                        mo = MosFile.from_file(files[k])
+                        exp_lines.append('%s: %s%s' % (files[k], type(mo).__name__, ' (completed)' if mo.completed else ''))
+                    except Exception:
+                        exp_lines.append(None)
+                got = [l for l in out.splitlines() if any(l.startswith(files[k] + ':') for k in lst)]
+                if code not in (None, 0):
+                    fail('%s returned %r' % (cmd, code), argv)
+                elif got != [l for l in exp_lines if l is not None]:
+                    fail('%s printed %s, the library says %s' % (cmd, got, [l for l in exp_lines if l]), argv)
+                elif sum(1 for l in err.splitlines() if l.endswith(': Invalid')) != sum(1 for l in exp_lines if l is None):
+                    fail('%s did not mark exactly the unreadable / unclassifiable files invalid' % cmd, argv)
+        # usage errors
+        for argv in (['detect'], ['inspect'], ['merge'], ['detect', '-b', 'bk'], ['detect', '-f']):
+            n += 1
+            code, out, err = run_cli(argv)
+            if code != 2 or not err.strip():
+                fail('usage error returned %r (stderr %r)' % (code, err[:60]), argv)
+        # merge: all option combinations over several file sets
+        sets = {'complete': ['ro', 'append', 'move', 'end'], 'incomplete': ['ro', 'append', 'swap'], 'failing': ['ro', 'bad', 'append', 'end'],
+                'invalid': ['append', 'end'], 'unreadable': ['ro', 'missing', 'end'], 'after_end': ['ro', 'end', 'roreplace']}
+        sets['after_end'] = ['ro', 'append', 'end']
+        for sname, lst in sets.items():
+            for inc, ns, of in _it.product((False, True), (False, True), (False, True)):
+                outp = os.path.join(tmp, 'out.xml')
+                if os.path.exists(outp):
+                    os.unlink(outp)
+                argv = ['merge', '-f'] + [files[k] for k in lst] + (['-i'] if inc else []) + (['-n'] if ns else []) + (['-o', outp] if of else [])
+                n += 1
+                code, out, err = run_cli(argv)
+                # library result
+                exp_err, exp_str = None, None
+                try:
+                    with warnings.catch_warnings():
+                        warnings.simplefilter('ignore')
+                        mc = MosCollection.from_files([files[k] for k in lst], allow_incomplete=inc)
+                        mc.merge(strict=not ns)
+                    exp_str = str(mc)
+                except Exception as e:
+                    exp_err = e
+                if exp_err is not None:
+                    if code != 2 or not err.strip():
+                        fail('merge of an erroneous collection (%s: %s) returned %r' % (sname, type(exp_err).__name__, code), argv)
+                    continue
+                if code not in (None, 0):
+                    fail('successful merge returned %r (stderr %s)' % (code, err[:80]), argv)
+                elif of:
+                    if not os.path.exists(outp) or open(outp).read() != exp_str:
+                        fail('file written by -o differs from the serialisation of the merged collection', argv)
+                elif exp_str not in out or out.strip() != exp_str.strip():
+                    fail('stdout of merge differs from the serialisation of the merged collection', argv)
+    finally:
+        import shutil
+        shutil.rmtree(tmp)
+    return {'evaluations': n, 'distinct': n, 'failures': failures,
+            'rule': 'detect and inspect over 12 files (every kind, non-XML, unknown XML, missing path, directory, completed RO) singly and in lists with a bad file in '
+                    'every position; 5 usage errors; merge over 6 file sets x all 8 combinations of -i -n -o; oracle = MosFile / MosCollection called directly',
+            'summary': {'short': '%d command lines, %d failing' % (n, len(failures)), 'bounded': True, 'exhaustive_options': True}, 'assumptions': []}
+
+
+def replay_C19(prop, f):
+    r = search_C19('thorough', None)
+    return any(x['input_sha'] == f['input_sha'] for x in r['failures'])
